@@ -325,6 +325,21 @@ def to_number(v: Any) -> int | float:
     return 0
 
 
+def numeric_string_in_domain(v: Any) -> bool:
+    """Strings are either documented numeric strings (-?d+ or -?d+.d+) or strings that no
+    number parser would accept; anything in between ("2.", ".5", "1e3", " 7", "inf", "1_0",
+    non-ASCII digits) is outside the documented domain (the witness shrinker can produce them)."""
+    if not isinstance(v, str) or RE_INT.match(v) or RE_FLOAT.match(v):
+        return True
+    for conv in (int, float):
+        try:
+            conv(v)
+            return False
+        except ValueError:
+            pass
+    return True
+
+
 def exact(v: int | float) -> Fraction:
     """Exact value in decimal semantics: a float denotes its shortest decimal form
     (the documented examples 183.357 - 12.2 = 171.157 require this)."""
